@@ -28,53 +28,9 @@ verus! {
 //@include std_int.rs
 //@include symtab.rs
 
-//@item src/symbol.rs enum Register derive=Clone,Copy,PartialEq,Eq,Structural
-//@item src/symbol.rs enum Flag derive=Clone,Copy,PartialEq,Eq,Structural
-//@item src/symbol.rs enum Label derive=
-//@item src/symbol.rs enum InstrKind derive=Clone,Copy,PartialEq,Eq,Structural
-//@item src/symbol.rs enum TrapKind derive=Clone,Copy,PartialEq,Eq,Structural
-//@item src/symbol.rs enum DirKind derive=Clone,Copy,PartialEq,Eq,Structural
-//@item src/symbol.rs struct SrcOffset derive=Clone,Copy,PartialEq,Eq,Structural
-//@item src/symbol.rs struct Span derive=Clone,Copy,PartialEq,Eq,Structural
-//@item src/lexer/mod.rs struct Token derive=Clone,Copy
-//@item src/lexer/mod.rs enum LiteralKind derive=Clone,Copy,PartialEq,Eq,Structural
-//@item src/lexer/mod.rs enum TokenKind derive=Clone,Copy,PartialEq,Eq,Structural
-//@item src/air.rs enum ImmediateOrReg derive=Clone,Copy
-//@item src/air.rs struct RawWord derive=Clone,Copy
-//@item src/air.rs enum AirStmt derive=
-//@item src/air.rs struct AsmLine derive=
-//@item src/debugger/breakpoint.rs struct Breakpoints derive=
-//@item src/debugger/breakpoint.rs struct Breakpoint derive=Clone,Copy
-//@item src/air.rs struct Air derive=
-//@item src/parser.rs enum Bits derive=
-//@item src/parser.rs struct AsmParser derive= tsub="Peekable<IntoIter<Token>>=>TokStream"
-
-// R10 stand-in for Peekable<IntoIter<Token>>: an immutable token sequence plus a cursor (assumed iterator semantics)
-pub struct TokStream { v: Vec<Token>, pos: usize }
-impl TokStream {
-    pub closed spec fn all(&self) -> Seq<Token> { self.v@ }
-    pub closed spec fn pos(&self) -> int { if self.pos <= self.v.len() { self.pos as int } else { self.v.len() as int } }
-    pub open spec fn rest(&self) -> Seq<Token> { self.all().skip(self.pos()) }
-    pub proof fn lemma_pos(&self) ensures 0 <= self.pos() <= self.all().len() { }
-    #[verifier::external_body]
-    fn next(&mut self) -> (r: Option<Token>)
-        ensures final(self).all() == old(self).all(),
-                0 <= old(self).pos() <= old(self).all().len(),
-                old(self).pos() == old(self).all().len() ==> r is None && final(self).pos() == old(self).pos(),
-                old(self).pos() < old(self).all().len() ==> r == Some(old(self).all()[old(self).pos()]) && final(self).pos() == old(self).pos() + 1,
-    { unimplemented!() }
-    /// Peekable::peek returns Option<&Token>; the stand-in returns the (Copy) token by value, because a shared borrow
-    /// out of a `&mut` call that is live across match guards makes this Verus version havoc the whole of `*self`
-    #[verifier::external_body]
-    fn peek(&mut self) -> (r: Option<Token>)
-        ensures final(self).all() == old(self).all(), final(self).pos() == old(self).pos(),
-                0 <= old(self).pos() <= old(self).all().len(),
-                old(self).pos() == old(self).all().len() ==> r is None,
-                old(self).pos() < old(self).all().len() ==> r == Some(old(self).all()[old(self).pos()]),
-    { unimplemented!() }
-}
-
+//@tpl parser_types.rs
 //@include bp_spec.rs
+//@include lines_spec.rs
 //@include parse_spec.rs
 
 broadcast use crate::bv::group_bv;
@@ -89,15 +45,7 @@ broadcast use crate::bv::group_bv;
 #[verifier::external_body]
 fn verif_display(k: TokenKind) -> (r: &'static str) requires displayable(k) { "" }
 
-spec fn pframe(a: AsmParser, b: AsmParser) -> bool { b.src == a.src && b.air == a.air && b.line == a.line && b.toks.all() == a.toks.all() }
-spec fn at_end(p: AsmParser) -> bool { p.toks.pos() >= p.toks.all().len() }
-/// the token under the cursor
-spec fn cur(p: AsmParser) -> Token { p.toks.all()[p.toks.pos()] }
-/// n tokens were taken from the stream
-spec fn advanced(a: AsmParser, b: AsmParser, n: int) -> bool { b.toks.pos() == a.toks.pos() + n && b.toks.pos() <= b.toks.all().len() && pframe(a, b) }
-spec fn took(a: AsmParser, b: AsmParser) -> bool { !at_end(a) && advanced(a, b, 1) }
-spec fn untouched(a: AsmParser, b: AsmParser) -> bool { advanced(a, b, 0) && b.tok_end == a.tok_end }
-spec fn pstream_ok(p: AsmParser) -> bool { stream_ok(p.toks.all()) }
+//@include parser_helpers.rs
 
 impl Span {
 //@fn src/symbol.rs "impl Span" new ret=r props=C17 assumed
@@ -149,6 +97,14 @@ proof fn lemma_instr_cases_exhaustive(kind: InstrKind)
         || kind is Jsr || kind is Jsrr || kind is Ld || kind is Ldi || kind is Ldr || kind is Lea || kind is Not || kind is Ret
         || kind is Rti || kind is St || kind is Sti || kind is Str,
 { }
+
+/// C01/C17: a prefix label is bound to the number of the statement it marks (the parser's current line)
+fn verif_label_insert(Ghost(cur): Ghost<u16>, sym: &mut SymTab, label: &str, line: u16) -> (r: Result<()>)
+    requires line == cur,
+    ensures
+        r is Err <==> old(sym)@.contains_key(label@),
+        final(sym)@ == old(sym)@.insert(label@, line),
+{ Label::insert(sym, label, line) }
 
 impl AsmParser {
     /// `&self.src[span.offs()..span.end()]` (str slicing: trusted; bounds are the lexer's obligation, C05 bounded part)
@@ -233,6 +189,7 @@ impl AsmParser {
 
 //@fn src/parser.rs "impl AsmParser" parse ret=r props=C01,C04,C05,C11,C17
 //@symtab
+//@sub <<<Label::insert(sym,>>> ==> <<<verif_label_insert(Ghost(self_.line), sym,>>>
 //@sub <<<loop {
             let mut labeled_line = false;>>> ==> <<<loop
             invariant_except_break
@@ -249,30 +206,12 @@ impl AsmParser {
             decreases self_.toks.all().len() - self_.toks.pos(),
         {
             let mut labeled_line = false;>>>
-        requires
-            pstream_ok(self),
-            self.line == 1, self.air.ast@.len() == 0, self.air.breakpoints.0@.len() == 0,
-        ensures
-            r matches Ok(air) ==> air_wf(air) && table_grown(old(sym)@, final(sym)@, (air.ast@.len() + 1) as int),
+//@contract AsmParser_parse.c
 //@end
 
 //@fn src/parser.rs "impl AsmParser" parse_simple ret=r props=C15,C05
 //@symtab
-        requires
-            pstream_ok(*old(self)),
-            // preprocess_simple never produces Byte / Breakpoint tokens
-            forall|i: int| 0 <= i < old(self).toks.all().len() ==> !((#[trigger] old(self).toks.all()[i]).kind is Byte || old(self).toks.all()[i].kind is Breakpoint),
-        ensures
-            pframe(*old(self), *final(self)), final(sym)@ == old(sym)@,
-            // exactly one well-formed instruction or trap, and nothing after it
-            r matches Ok(st) ==> !(st is RawWord) && !at_end(*old(self)) && at_end(*final(self))
-                && match cur(*old(self)).kind {
-                    TokenKind::Instr(k) => accepts(k, old(self).toks.all().skip(old(self).toks.pos() + 1)) matches Some(n)
-                        && stmt_ok(k, st, old(self).toks.all().skip(old(self).toks.pos() + 1), old(self).line, old(self).src, old(sym)@)
-                        && old(self).toks.all().len() == old(self).toks.pos() + n + 1,
-                    TokenKind::Trap(k) => st is Trap,
-                    _ => false,
-                },
+//@contract AsmParser_parse_simple.c
 //@end
 
 //@fn src/parser.rs "impl AsmParser" parse_instr ret=r props=C01,C04,C05
